@@ -23,9 +23,9 @@ type Config struct {
 	CJK         string `json:"cjk,omitempty"` // "", "default", "css3", "escaped"
 	AutoID      bool   `json:"auto_heading_id,omitempty"`
 	Attribute   bool   `json:"attribute,omitempty"`
-	FootnoteOpt string `json:"footnote_opt,omitempty"` // "", "prefix", "prefixfn", "titles" (only with Footnote)
+	FootnoteOpt string `json:"footnote_opt,omitempty"`     // "", "prefix", "prefixfn", "titles" (only with Footnote)
 	TypoSubs    bool   `json:"typographer_subs,omitempty"` // custom substitutions (only with Typographer)
-	LinkifyOpt  string `json:"linkify_opt,omitempty"` // "", "protocols", "regexp" (only with GFM)
+	LinkifyOpt  string `json:"linkify_opt,omitempty"`      // "", "protocols", "regexp" (only with GFM)
 	Unsafe      bool   `json:"unsafe,omitempty"`
 	XHTML       bool   `json:"xhtml,omitempty"`
 	HardWraps   bool   `json:"hardwraps,omitempty"`
